@@ -62,6 +62,14 @@ pub enum Ev {
         #[serde(default)]
         payload: Option<String>,
     },
+    /// The durable store of a peer is damaged in place (torn or short write, lost sector, bit rot); the peer
+    /// carries on with what it reads back. `payload` records the resulting bytes (see Forge).
+    Torn {
+        peer: usize,
+        op: ForgeOp,
+        #[serde(default)]
+        payload: Option<String>,
+    },
     /// Informational (driver-level faults with no world transition): drop, partition, stall, ...
     Note { kind: String, detail: String },
 }
@@ -323,6 +331,41 @@ impl World {
                 } else {
                     self.skipped += 1;
                 }
+                None
+            }
+            Ev::Torn { peer, op, payload } => {
+                let cur = self.peers[*peer].store.clone();
+                if cur.is_empty() {
+                    self.skipped += 1;
+                    return None;
+                }
+                let bytes = match payload {
+                    Some(p) => crate::tamper::unhex(p),
+                    None => crate::tamper::damage(&cur, op),
+                };
+                let Some(bytes) = bytes else {
+                    self.skipped += 1;
+                    return None;
+                };
+                if payload.is_none() {
+                    if let Some((_, Ev::Torn { payload, .. })) = self.events.last_mut() {
+                        *payload = Some(crate::tamper::hex(&bytes));
+                    }
+                }
+                // a worker that dies later in this history died outside C01's domain: tell the parent
+                if let Ok(j) = std::env::var("VERIF_JOURNAL") {
+                    use std::io::Write;
+                    if let Ok(mut f) = std::fs::OpenOptions::new().append(true).open(&j) {
+                        let _ = writeln!(f, "torn");
+                    }
+                }
+                let p = &mut self.peers[*peer];
+                p.store = Rc::new(bytes);
+                let sr = p.store_run;
+                p.hist.push((p.store.clone(), sr));
+                p.taint.insert("forged".into());
+                p.taint.insert("torn".into());
+                *self.stats.faults_fired.entry(format!("torn_store:{}", op.kind())).or_default() += 1;
                 None
             }
             Ev::Forge { src, to, by, ops, payload } => {
